@@ -20,6 +20,10 @@ intra-procedural, flow-insensitive def-use pass:
                          from one parent collapse to the same stream -- NOT seeded.
                          (`s.generate_state(n)` and `SeedSequence(s.entropy, spawn_key=s.spawn_key)`
                          keep the whole seed and stay `fromSeedParam`.)
+    callerOwned path     (kind `escape`) seed material -- a seed, a generator, a function drawing from
+                         one -- is stored into a container that may be the caller's own object (a
+                         parameter that is not copied first, or an alias of one): components built
+                         from the same container then share or overwrite it -- NOT seeded.
     unclassified         anything in numpy.random, random, scipy.stats.qmc, sklearn, cma,
                          secrets, os.urandom, uuid that the API table below does not know
 
@@ -113,8 +117,9 @@ NONDETERMINISTIC = {"time.time", "time.time_ns", "time.perf_counter", "time.mono
 INERT_CALLEES = {"isinstance", "issubclass", "type", "len", "id", "repr", "str", "print", "hasattr", "getattr",
                  "callable", "bool"}
 
-SEVERITY = {"const": 0, "seed": 1, "own": 1, "lossy": 2, "fresh": 3, "global": 4, "unknown": 5}
-PROV_ORDER = ["fromSeedParam", "ownGenerator", "constant", "entropyOnly", "fresh", "global", "unclassified"]
+SEVERITY = {"const": 0, "seed": 1, "own": 1, "lossy": 2, "escaped": 2, "fresh": 3, "global": 4, "unknown": 5}
+PROV_ORDER = ["fromSeedParam", "ownGenerator", "constant", "entropyOnly", "callerOwned", "fresh", "global",
+              "unclassified"]
 
 
 class V:
@@ -839,6 +844,38 @@ class Analysis:
                     if recv is not None and d == recv and not (isinstance(n.func, ast.Attribute)
                                                                 and n.func.attr == "spawn"):
                         self.spawns[sp]["consumers"].add((n.lineno, callee, None))
+        # seed material written into a container that (may be) owned by the caller
+        if fn is not None:
+            owned = self.caller_owned(fn, body)
+            for n in iter_scope(body):
+                stores = []  # (container expr, key text, value expr)
+                if isinstance(n, ast.Assign):
+                    for t in n.targets:
+                        if isinstance(t, ast.Subscript):
+                            stores.append((t.value, ast.unparse(t.slice), n.value))
+                elif isinstance(n, ast.Call) and isinstance(n.func, ast.Attribute):
+                    if n.func.attr == "setdefault" and len(n.args) == 2:
+                        stores.append((n.func.value, ast.unparse(n.args[0]), n.args[1]))
+                    elif n.func.attr == "update":
+                        for k in n.keywords:
+                            if k.arg:
+                                stores.append((n.func.value, repr(k.arg), k.value))
+                        for a in n.args:
+                            if isinstance(a, ast.Dict):
+                                for k, val in zip(a.keys, a.values):
+                                    if k is not None:
+                                        stores.append((n.func.value, ast.unparse(k), val))
+                for cont, key, val in stores:
+                    d = dotted(cont)
+                    if d is None or d not in owned:
+                        continue
+                    v = self.ev(S, val, as_seed=True)
+                    if v is not None and v.tag in ("seed", "own", "lossy"):
+                        self.add_site(mod.rel, n.lineno, n.col_offset, name, "escape",
+                                      f"{d}[{key[:24]}] <- seed material ({owned[d]})",
+                                      V("escaped", path=f"{v.path}->{d}",
+                                        note="the component's seed / generator is stored in an object the caller "
+                                             "may share with other components"))
         # a seed parameter that is never used
         if fn is not None and not is_abstract_body(fn):
             used = {x.id for x in ast.walk(fn) if isinstance(x, ast.Name) and isinstance(x.ctx, ast.Load)}
@@ -847,6 +884,60 @@ class Analysis:
                 if p.arg in ("seed", "random_state", "rng") and p.arg not in used and not a.kwarg:
                     self.add_site(mod.rel, p.lineno, p.col_offset, name, "seedParam",
                                   f"<parameter {p.arg} is never used>", V("fresh", note="seed dropped"))
+
+    @staticmethod
+    def caller_owned(fn, body):
+        """Names / attributes of this function that may refer to a mutable object handed in by the caller:
+        a parameter that is never rebound to a fresh object (`kw = dict(kw)`, `kw.copy()`, a literal), and
+        anything assigned from an expression that may evaluate to such a name (`self._opts = opts or {}`,
+        `kw = {} if kw is None else kw`).  Returns {dotted name: description}."""
+        a = fn.args
+        params = {p.arg for p in a.posonlyargs + a.args + a.kwonlyargs} - {"self", "cls"}
+        assigns = {}
+        for n in iter_scope(body):
+            pairs = []
+            if isinstance(n, ast.Assign):
+                pairs = [(t, n.value) for t in n.targets]
+            elif isinstance(n, (ast.AnnAssign, ast.NamedExpr)) and n.value is not None:
+                pairs = [(n.target, n.value)]
+            for t, val in pairs:
+                d = dotted(t)
+                if d is not None:
+                    assigns.setdefault(d, []).append(val)
+
+        def may_alias(e):
+            if isinstance(e, (ast.Name, ast.Attribute)):
+                d = dotted(e)
+                return {d} if d else set()
+            if isinstance(e, ast.IfExp):
+                return may_alias(e.body) | may_alias(e.orelse)
+            if isinstance(e, ast.BoolOp):
+                out = set()
+                for v in e.values:
+                    out |= may_alias(v)
+                return out
+            if isinstance(e, ast.NamedExpr):
+                return may_alias(e.value)
+            return set()  # calls, literals, comprehensions: a fresh object
+
+        owned = {}
+        for p in sorted(params):
+            vals = assigns.get(p, [])
+            # rebinding the parameter to something that cannot be the caller's object ends the ownership
+            if all(may_alias(v) & params for v in vals):
+                owned[p] = f"parameter {p}"
+        for _ in range(4):
+            grew = False
+            for t, vals in sorted(assigns.items()):
+                if t in owned or t in params:
+                    continue
+                src = sorted({x for v in vals for x in may_alias(v) if x in owned})
+                if src:
+                    owned[t] = f"may be parameter {src[0]}"
+                    grew = True
+            if not grew:
+                break
+        return owned
 
     @staticmethod
     def _is_callee(body, attr):
@@ -862,6 +953,8 @@ class Analysis:
             prov = ("ownGenerator", v.path)
         elif v.tag == "lossy":
             prov = ("entropyOnly", v.path)
+        elif v.tag == "escaped":
+            prov = ("callerOwned", v.path)
         elif v.tag == "const":
             prov = ("constant", "")
         elif v.tag == "fresh":
@@ -903,7 +996,7 @@ def lean_str(s):
 
 def lean_prov(p):
     tag, arg = p
-    if tag in ("fromSeedParam", "ownGenerator", "entropyOnly"):
+    if tag in ("fromSeedParam", "ownGenerator", "entropyOnly", "callerOwned"):
         return f".{tag} {lean_str(arg)}"
     return f".{tag}"
 
